@@ -27,6 +27,12 @@ func (e *kvElection) heartbeatLoop(ctx context.Context) {
 		case <-ctx.Done():
 			return
 		case <-ticker.C:
+			// ctx is the context of the term this loop was started for: a tick
+			// that fires together with the end of that term must not act for a
+			// later term of the same instance (the Done case ends the loop).
+			if ctx.Err() != nil {
+				continue
+			}
 			if !e.IsLeader() {
 				return
 			}
